@@ -45,3 +45,5 @@ try:
     (d / "meta.json").write_text(json.dumps(meta, indent=1))
 finally:
     run(f"git -C /repo worktree remove --force {wt}")
+    # the translators regenerated lean/SplinkVerif/Generated from the CHANGED tree: put the committed files back
+    run("git -C /verif checkout -- lean/SplinkVerif/Generated replays")
